@@ -183,6 +183,13 @@ func pubWalk(t *Term, inh string, ro bool, pub map[int]bool) {
 	case "rstring", "rbytes":
 		mark(tokIDs(t.B), own != "unsafe")
 	case "obj":
+		// the underlying value of the object (its methods' texts are classified below): public only if every
+		// occurrence of the object stands under a safe declaration
+		if old, ok := pub[-t.ID]; ok {
+			pub[-t.ID] = old && own == "safe"
+		} else {
+			pub[-t.ID] = own == "safe"
+		}
 		mark(tokIDs(t.B), DeclClass(t, "ret", own) == 'S')
 		for _, ops := range [][]SOp{t.Scr, t.FScr} {
 			for _, op := range ops {
